@@ -100,6 +100,8 @@ def parts(tier):
             Part('exec', exec_cases(), quick=180, thorough=1500),
             Part('exec_sweep', enum=lambda tier: (c for c in c07.sweep_cases(tier)
                                                    if any(m[0] == 'cancel' for m in c['moves']))),
+            Part('exec_sweep2', enum=lambda tier: (c for c in c07.sweep2_cases(tier)
+                                                    if any(m[0] == 'cancel' for m in c['moves']))),
             Part('later', later_cases(), quick=250, thorough=2000),
             Part('request', request_cases(), quick=100, thorough=500)]
 
@@ -185,7 +187,9 @@ def run_exec(case, res):
     if case.get('kind') == 'sweep':
         res.nontrivial = True
         res.label('exec:sweep')
-        return
+        if len(sim.order) < 2:
+            return
+        res.label('exec:sweep:with_bystander')
     # differential: same case without the cancel requests
     base = dict(case)
     base['moves'] = [m for m in case['moves'] if m[0] != 'cancel']
